@@ -618,6 +618,51 @@ static int sweep_c11(int argc, char **argv) {
             session_table_destroy(tab);
         }
     }
+    /* ... and two waves: the table full (or not), a first group of sessions expires at one tick, a second group half a minute
+     * later at another, the rest is kept alive */
+    {
+        static const int ns4[] = {3, 5, 16};
+        for (int ni = 0; ni < 3; ni++) for (int shape = 0; shape < 4; shape++) for (int ack = 0; ack < 2; ack++) {
+            int n = ns4[ni];
+            int grp[16];      /* 0: kept, 1: leaves at the first tick, 2: leaves at the second */
+            for (int j = 0; j < n; j++) grp[j] = 0;
+            switch (shape) {
+                case 0: for (int j = 0; j < n / 2; j++) grp[j] = 1; grp[n - 1] = 2; break;      /* the older half, then the youngest */
+                case 1: grp[n > 4 ? 4 : 1] = 1; grp[n - 1] = 2; break;                           /* one in the middle, then the youngest */
+                case 2: grp[n - 1] = 1; grp[0] = 2; break;                                       /* the youngest, then the oldest */
+                case 3: grp[0] = 1; for (int j = 1; j < n; j += 2) grp[j] = 2; break;
+            }
+            session_table *tab = session_table_create();
+            if (!tab) { viol("C11:setup", "session_table_create failed"); return 0; }
+            uint8_t mp[16][6];
+            for (int j = 0; j < n; j++) { uint8_t a6[6] = {2, 0x56, (uint8_t)shape, 0, (uint8_t)n, (uint8_t)j}; memcpy(mp[j], a6, 6); session_table_add(tab, mp[j], GEN, XID); }
+            vp_now_ms += 30000;
+            for (int j = 0; j < n; j++) if (grp[j] != 1) session_table_add(tab, mp[j], GEN, XID);
+            vp_now_ms += 31000;
+            automata_tick(NULL, NULL, tab, NULL);
+            for (int j = 0; j < n; j++) if (grp[j] == 0) session_table_add(tab, mp[j], GEN, XID);
+            vp_now_ms += 31000;
+            automata_tick(NULL, NULL, tab, NULL);
+            for (int j = 0; j < n; j++) {
+                vp_fill_stream(buf, mtu, fseed + 13);
+                size_t o = mk_base(buf, BCAST, mp[j], 0, 0, BCAST, mp[j], (uint16_t)(XID + 1));
+                buf[o++] = GEN >> 8; buf[o++] = GEN & 255; buf[o++] = 0; buf[o++] = 1;
+                for (size_t i = 36; i < 200; i++) buf[i] = 0x80;
+                if (ack) memcpy(buf + 36, OWN, 6);
+                int r = derive_session_event(buf, tab, OWN);
+                int e = c11_expect(ack, grp[j] == 0);
+                cases++; age_cases++;
+                if (r != e) {
+                    char key[160];
+                    snprintf(key, sizeof(key), "C11:discover:wrong-event-after-sessions-of-different-age:%s", grp[j] == 0 ? "refreshed-session-not-known" : "expired-session-still-known");
+                    viol(key, "%d sessions recorded, leaving in two waves (shape %d: session %d was in group %d); Discover of mapper %d under a changed sequence "
+                         "number (%s): derive_session_event=%d expected %d", n, shape, j, grp[j], j, ack ? "acknowledging" : "not acknowledging", r, e);
+                    break;
+                } else nontriv++;
+            }
+            session_table_destroy(tab);
+        }
+    }
     stat_ull("cases", cases);
     stat_ull("sessions_of_different_age_cases", age_cases);
     stat_ull("second_discover_cases", seq_cases);
